@@ -5,7 +5,7 @@ import FunProofs.ConcSubj
 /-! Sequential facts about the `pubsub.Queue` model: tracker invariant, the admission decision, and
     the one-segment simulation of the sequential specification (`FunProofs/QueueSpec.lean`). -/
 namespace FunModel.Queue
-open FunModel.Conc
+open FunModel.Conc FunModel.ConcSubj
 
 /-! ### tracker -/
 
